@@ -229,3 +229,53 @@ def catalogue(rnd, tier):
         add_limit(rnd, ds, r)
         res.append((ds, r, freq + ':' + shape))
     return res
+
+
+# ---------------------------------------------------------------- full accepted language (C16, C09)
+HIJRI = ['HIJRI.IA', 'HIJRI.IC', 'HIJRI.IIA', 'HIJRI.IIIC', 'HIJRI.IVA', 'HIJRI.UMMULQURA', 'HIJRI.DIYANET']
+ZONES = ['Europe/Berlin', 'America/New_York', 'Australia/Sydney', 'Asia/Kolkata', 'America/Sao_Paulo', 'Europe/London', 'Pacific/Chatham']
+
+
+def ext_rule_text(rnd, ds):
+    """an RRULE text over the whole accepted language, incl. SHIFT, BYEASTER, SCALE and ill-formed-but-accepted combinations"""
+    freq = rnd.choice(FREQS if len(ds) > 3 else FREQS[:4])
+    p = ['FREQ=' + freq]
+    if rnd.random() < 0.5: p.append('INTERVAL=%d' % rnd.choice(INTERS))
+    def lst(pool, k): return ','.join(str(x) for x in sorted(set(rnd.sample(list(pool), min(k, len(pool))))))
+    if rnd.random() < 0.35: p.append('BYMONTH=' + lst(range(1, 13), rnd.randint(1, 4)))
+    if rnd.random() < 0.25: p.append('BYMONTHDAY=' + lst([1, 2, 13, 15, 28, 29, 30, 31, -1, -2, -31], rnd.randint(1, 3)))
+    if rnd.random() < 0.3:
+        days = rnd.sample(WD, rnd.randint(1, 4))
+        p.append('BYDAY=' + ','.join((rnd.choice(['', '', '1', '-1', '2', '5', '-5', '53', '20']) if rnd.random() < 0.4 else '') + d for d in days))
+    if rnd.random() < 0.1: p.append('BYYEARDAY=' + lst([1, 59, 60, 100, 365, 366, -1, -366], rnd.randint(1, 3)))
+    if rnd.random() < 0.1: p.append('BYWEEKNO=' + lst([1, 2, 20, 52, 53, -1, -53], rnd.randint(1, 2)))
+    if rnd.random() < 0.12: p.append('BYEASTER=' + lst([0, 1, -2, -46, 39, 49, 50, 60, -366, 366, 300], rnd.randint(1, 3)))
+    if rnd.random() < 0.15: p.append('BYSETPOS=' + lst([1, 2, -1, -2, 3], rnd.randint(1, 2)))
+    if len(ds) > 3 and rnd.random() < 0.3:
+        if rnd.random() < 0.6: p.append('BYHOUR=' + lst(range(24), rnd.randint(1, 6)))
+        if rnd.random() < 0.6: p.append('BYMINUTE=' + lst(range(60), rnd.randint(1, 6)))
+        if rnd.random() < 0.4: p.append('BYSECOND=' + lst(range(60), rnd.randint(1, 4)))
+    if rnd.random() < 0.15: p.append('SHIFT=' + rnd.choice(['1', '-1', '3', '-10', '30', '366', '-366', '1B', '-1B', '0B', '-0B', '0B+', '0B-', '5B', '-7B', '2,1B', '-3,-2B']))
+    if rnd.random() < 0.1 and freq in ('YEARLY', 'MONTHLY'): p.append('SCALE=' + rnd.choice(HIJRI))
+    count = 0; until = None
+    x = rnd.random()
+    if x < 0.45: count = rnd.choice(COUNTS + [500, 1000]); p.append('COUNT=%d' % count)
+    elif x < 0.65:
+        d0 = D.date(*ds[:3]); u = d0 + D.timedelta(rnd.choice([0, 1, 30, 366, 3000, 20000]))
+        if u.year > 2098: u = D.date(2098, 12, 31)
+        until = inst((u.year, u.month, u.day) + tuple(ds[3:]))
+        p.append('UNTIL=' + ('%04d%02d%02d' % tuple(until[:3]) if until[3] == 255 else '%04d%02d%02dT%02d%02d%02dZ' % tuple(until[:6])))
+    return ';'.join(p), count, until
+
+
+def full_event(rnd, uid):
+    y = rnd.choice(year_types() + [1902, 1970, 2037, 2038, 2090]); m = rnd.randint(1, 12); d = rnd.randint(1, dim(y, m))
+    timed = rnd.random() < 0.6
+    ds = (y, m, d, rnd.randint(0, 23), rnd.choice([0, 15, 30, 59]), rnd.choice([0, 30, 59])) if timed else (y, m, d)
+    tz = rnd.choice(ZONES) if timed and rnd.random() < 0.25 else None
+    rules = [ext_rule_text(rnd, ds) for _ in range(rnd.choice([1, 1, 1, 2, 3]))]
+    counts = [c for _, c, _ in rules]; untils = [u for _, _, u in rules]
+    rec = {'uid': uid, 'ds': inst(ds), 'tz': bool(tz), 'rtext': ' | '.join(r for r, _, _ in rules),
+           'count': sum(counts) if all(counts) else 0, 'until': max(untils) if all(u is not None for u in untils) else [],
+           'ics': event_ics(uid, ds, [r for r, _, _ in rules], tzid=tz)}
+    return rec
